@@ -398,17 +398,32 @@ def gen_tolreq(rng):
                 tol_fp=10.0 ** -rng.choice([3, 4, 5, 8, 9]))
 
 
+BISECT_ITER = [0]
+
+
 def bisect_mirror(gfun, S, Q, tol, maxit=5000):
-    """binary64 transcription of Alg/RQ.v [bisect]"""
+    """binary64 transcription of Alg/RQ.v [bisect]; BISECT_ITER[0] = number of halvings done (the fuel the model's run consumes)"""
     lo, hi = S - 5 * Q, S
     r = (lo + hi) / 2
-    for _ in range(maxit):
+    for it in range(maxit):
         gr, grQ = gfun(r), gfun(r + Q)
-        if not abs(gr - grQ) > tol: return r
+        if not abs(gr - grQ) > tol: BISECT_ITER[0] = it; return r
         if gr < grQ: hi = r
         else: lo = r
         r = (lo + hi) / 2
     return None
+
+
+def check_halvings(chk, who, h, p, Q, tol, cc):
+    """C14_r_for_q_terminates: the newsvendor cost is max(h,p)-Lipschitz, so every fuel with max(h,p) * 5Q <= 2^fuel * tol suffices;
+    the run that reproduced the implementation's r bit for bit must not have used more halvings than that (+1 for rounding of g)"""
+    need = max(h, p) * 5 * Q / tol
+    bound = 0 if need <= 1 else math.ceil(math.log2(need))
+    chk.extra['bisection_halvings_max'] = max(chk.extra.get('bisection_halvings_max', 0), BISECT_ITER[0])
+    chk.extra['bisection_bound_slack_min'] = min(chk.extra.get('bisection_bound_slack_min', 10 ** 9), bound - BISECT_ITER[0])
+    if BISECT_ITER[0] > bound + 1:
+        chk.fail('%s|halvings-exceed-the-proved-bound' % who, 'Q=%.8g tol=%g h=%g p=%g: %d halvings, but ceil(log2(max(h,p) 5Q / tol)) = %d suffice for a max(h,p)-Lipschitz cost'
+                 % (Q, tol, h, p, BISECT_ITER[0], bound), dict(cc, Q=Q))
 
 
 def oracle_normal(chk, c):
@@ -466,6 +481,7 @@ def oracle_normal(chk, c):
         chk.traces += 1
         if rm is None or float(rm) != r:
             chk.mismatch('bisection: transcription of the model gives r=%r, implementation %r' % (rm, r), dict(cc, Q=Q))
+        else: check_halvings(chk, 'r_q_optimal_r_for_q', h, p, Q, tol, cc)
     # --- r_q_optimal_r_for_q with a caller-supplied tolerance (documented stopping rule |g(r) - g(r+Q)| <= tol)
     tr = c.get('tolreq')
     if tr:
@@ -488,6 +504,7 @@ def oracle_normal(chk, c):
                 chk.traces += 1
                 if float(rm) != r:
                     chk.mismatch('bisection with tol=%g: transcription of the model gives r=%r, implementation %r' % (tolc, rm, r), dict(cc, Q=Qt))
+                else: check_halvings(chk, 'r_q_optimal_r_for_q(tol)', h, p, Qt, tolc, cc)
     # --- approximations
     # default tolerance, then (new) a caller-supplied one: tighter or looser for EIL, looser only for the loss-function iteration
     # (its inner fsolve has a relative x-tolerance of 1.49e-8, so a tighter outer tolerance is not meaningful there)
